@@ -70,6 +70,17 @@ class SpatialTransform(DeviceProperty, Module, metaclass=ABCMeta):
                 copy.__dict__[name] = self.__dict__[name].copy()
         return copy
 
+    def _copy_with_own_parameters(self: TSpatialTransform) -> TSpatialTransform:
+        r"""Make shallow copy which has its own container of parameters.
+
+        Used by functions which return a copy of this transformation with replaced parameters,
+        such that the parameters of this transformation remain unchanged (cf. ``__copy__()``).
+
+        """
+        copy = shallow_copy(self)
+        copy._parameters = self._parameters.copy()
+        return copy
+
     @overload
     def condition(self) -> Tuple[tuple, dict]:
         r"""Get arguments on which transformation is conditioned.
@@ -126,7 +137,7 @@ class SpatialTransform(DeviceProperty, Module, metaclass=ABCMeta):
         r"""Get grid domain of this transformation or a new transformation with the specified grid."""
         if grid is None:
             return self._grid
-        return shallow_copy(self).grid_(grid)
+        return self._copy_with_own_parameters().grid_(grid)
 
     def grid_(self: TSpatialTransform, grid: Grid) -> TSpatialTransform:
         r"""Set sampling grid which defines domain and codomain of this transformation."""
@@ -474,7 +485,7 @@ class LinearTransform(SpatialTransform):
         r"""Get matrix representation of linear transformation or shallow copy with parameters set from matrix."""
         if arg is None:
             return as_homogeneous_matrix(self.tensor())
-        return shallow_copy(self).matrix_(arg)
+        return self._copy_with_own_parameters().matrix_(arg)
 
     def matrix_(self: TLinearTransform, arg: Tensor) -> TLinearTransform:
         raise NotImplementedError(f"{type(self).__name__}.matrix_()")
